@@ -221,6 +221,10 @@ where
         .handshake_timeout
         .unwrap_or(Duration::from_secs(15));
 
+      // One deadline for the whole handshake: a timeout armed per read would start afresh with every
+      // byte a slow peer sends and never disconnect it.
+      let hs_deadline = TokioInstant::now() + hs_timeout;
+
       'handshake: loop {
         if self.zmtp_engine.phase == ZmtpPhase::Data
           || self.zmtp_engine.phase == ZmtpPhase::Closed
@@ -229,8 +233,8 @@ where
           break 'handshake;
         }
 
-        let read_result = tokio::time::timeout(
-          hs_timeout,
+        let read_result = tokio::time::timeout_at(
+          hs_deadline,
           hs_read_half.read_buf(&mut self.handshake_read_buf),
         )
         .await;
